@@ -147,6 +147,9 @@ def mk_functions(spec):
         elif beh == "bytes":
             def f(x, _p=param):
                 return ct.IntType(len(str(x).encode("utf-8")) + _p)
+        elif beh == "ident":
+            def f(x, _p=param):
+                return x
         elif beh == "plus":
             def f(x, _p=param):
                 return ct.IntType(int(x) + _p)
